@@ -114,9 +114,23 @@ def run(ctx):
         small = [0, 2, 5, 6, 9]
         evs = [('open', d, t) for d in docs for t in small] + [('change', d, t) for d in docs for t in small] + \
               [('close', d, None) for d in docs] + [('symbols', d, None) for d in docs]
+        def conforming(combo):
+            # the LSP client contract: didChange / didClose only for documents it has opened (pygls itself raises KeyError otherwise,
+            # before any pydjinni handler runs)
+            opened = set()
+            for k, d, _ in combo:
+                if k == 'open':
+                    opened.add(d)
+                elif k in ('change', 'close'):
+                    if d not in opened:
+                        return False
+                    if k == 'close':
+                        opened.discard(d)
+            return True
         for combo in itertools.product(evs, repeat=3):
-            seqs.append(list(combo))
-        seqs = r.sample(seqs, 3000)
+            if conforming(combo):
+                seqs.append(list(combo))
+        seqs = r.sample(seqs, min(3000, len(seqs)))
     n = ctx.n(150, 1500)
     for _ in range(n):
         s, opened = [], set()
